@@ -96,6 +96,11 @@ def gen_case(rng, tier, avoid):
             if sel.shape[0] > 0 and sel.ndim == 1 and not (sel != sel).any():
                 num = (lambda x: float(x)) if sel.dtype.kind == 'f' else (lambda x: int(x))
                 which = rng.choice(['index_min', 'index_max', 'index_min', 'index_max', 'spacing', 'direction'])
+                if rng.random() < 0.3:
+                    # only the UNITS of a derived attribute are assigned (an annotation): its value stays the library's to derive
+                    which = rng.choice(['index_min', 'index_max', 'spacing'])
+                    writes.append({'set': {'attr': which, 'part': 'units', 'v': rng.choice(['m', 'ft', 's'])}})
+                    continue
                 if which == 'direction':
                     val = rng.choice(['INCREASING', 'DECREASING'])      # (equal to the derived one in half of the cases)
                 elif which == 'spacing':
